@@ -30,7 +30,7 @@ LEVEL_NOTE = "The expected chain comes from CPython's own frame objects captured
 TECHNIQUE = "property-based testing over generated programs: differential comparison of symbolic tracebacks with an independent sys._getframe walk"
 RULE = (
     "(also: the creating line inside a helper called from one line of a generator that two routes advance) Hypothesis draws (site kind in 13 kinds, optionally a second harmless route to the same site line before or after, nesting depth 0..8, per-function blank-line padding, worker count, "
-    "scheduler). Non-trivial = depth >= 1 or a site kind other than plan.call. Distinct = SHA-1 of the case."
+    "scheduler, and the file name the user's code object carries: the real temporary file, a directory beside the library whose name begins with the library's, a directory called uberjob, another distribution under the same site directory). Non-trivial = depth >= 1 or a site kind other than plan.call. Distinct = SHA-1 of the case."
 )
 ASSUMPTIONS = ["failures of the gathered *output* of run and modified-time failures on registered Literals are outside the statement"]
 
@@ -248,6 +248,7 @@ def cases(draw):
             "pads": draw(st.lists(st.integers(0, 3), min_size=1, max_size=5)),
             "genroute": draw(st.sampled_from([False, False, True])),
             "via_import": draw(st.sampled_from([False, False, False, True])),
+            "where": draw(st.sampled_from(["tmp", "tmp", "beside_library", "dir_named_uberjob", "site_packages_like"])),
             "workers": draw(st.integers(1, 3)), "scheduler": draw(st.sampled_from([None, "default", "random"]))}
 
 
@@ -274,14 +275,25 @@ def check_case(ctx, case, record=True):
                   "truncated" if case["depth"] + 2 > MAX_TRACEBACK_DEPTH + 1 else "not_truncated"]
                  + (["second_route_to_site"] if case.get("decoy") else [])
                  + (["site_inside_generator"] if case.get("genroute") else [])
-                 + (["created_while_importing_a_module"] if case.get("via_import") else []))
+                 + (["created_while_importing_a_module"] if case.get("via_import") else [])
+                 + [f"user_code_path:{case.get('where', 'tmp')}"])
     d = tempfile.mkdtemp(prefix="c19-")
     try:
         path = os.path.join(d, "user_module.py")
         with open(path, "w") as f:
             f.write(source_text(case))
+        # The file name the user's code object carries. Besides the real temporary file, user code may live anywhere:
+        # in a directory next to the library whose name merely begins with the library's, in a checkout directory
+        # called "uberjob", or in another distribution's directory under site-packages. Nothing is written there:
+        # the code object is compiled with that name, which is all a frame knows about where its code came from.
+        lib = os.path.dirname(os.path.abspath(uberjob.__file__))
+        code_path = {"tmp": path,
+                     "beside_library": os.path.join(lib + "_pipelines", "user_module.py"),
+                     "dir_named_uberjob": os.path.join(d, "uberjob", "user_module.py"),
+                     "site_packages_like": os.path.join(os.path.dirname(lib), "uberjob_contrib", "jobs", "user_module.py"),
+                     }[case.get("where", "tmp")]
         ns = {}
-        exec(compile(open(path).read(), path, "exec"), ns)
+        exec(compile(open(path).read(), code_path, "exec"), ns)
         c = Ctx()
         c.dir = d
         c.plan = uberjob.Plan()
